@@ -99,6 +99,12 @@ class BaseKernel:
             return ("ragged", tuple(p[0] for p in parts)), vals
         return (), [x]
 
+    def dense(self, A):
+        """A dense copy of a (possibly scipy-sparse) matrix."""
+        if hasattr(A, "toarray"):
+            return self.np.array(A.toarray())
+        return self.np.array(A)
+
     def check(self, cond, label, detail=None):
         """A structural (concrete python) condition."""
         g = {"label": label, "kind": "struct", "ok": bool(cond)}
